@@ -4,7 +4,7 @@ C09 — Endpoint verdicts follow tier, pass, staged and profile semantics.
 
 Property theorems (proofs and intermediate lemmas: `CalicoVerif.Proofs.C09`):
 
-* `endpoint_chain_verdict` — END TO END: over a chain set holding the rendered workload endpoint
+* `endpoint_chain_verdict_partial` — END TO END: over a chain set holding the rendered workload endpoint
   chain, the policy-group chains, the policy chains and the profile chains, evaluation of the
   endpoint chain reaches exactly the reference verdict `endpointVerdict` (RETURN with the accept
   bit = allow, DROP/REJECT = deny), for ANY number of tiers, groups (inline or with their own chain,
@@ -25,6 +25,41 @@ exactly (see the report; C12 owns the profile-pass question).
 -/
 namespace CalicoVerif.C09
 open CalicoVerif.Netfilter CalicoVerif.Policy CalicoVerif.C08
+
+/-- **Rendered endpoint chain = reference verdict** (`_partial`: the full statement of the property
+is false of the code — `profile_pass_stale_false` — and this theorem is restricted to the "normal"
+chain type, admin-up endpoints, no failsafe chain, packets outside the conntrack / encap preamble,
+profiles without pass rules, and rules satisfying C08's per-rule exactness `RuleExact`, which
+`ruleExact_of_le2` provides for every rule with at most two positive match blocks).
+Over a chain set holding the rendered endpoint chain, the policy-group chains of its non-inlined
+groups, the policy chains of its enforced policies and its profile chains, for any number of tiers,
+groups, policies and profiles: evaluation ends in RETURN with the accept bit set iff
+`endpointVerdict` = allow and in DROP/REJECT iff deny.  `out` is the outcome per jump target: a
+policy's `policyOutcome`, or for a group chain its first deciding enforced member. -/
+theorem endpoint_chain_verdict_partial (cfg : Cfg) (mo : MarksOK cfg) (vb : VBits cfg) (vd : VD cfg) (e : EpCfg)
+    (env : Env) (pkt : Packet) (chains : List Chain) (name : String) (tiers : List Tier) (profiles : List String)
+    (polRules : String → List Policy.Rule) (out : String → PolOutcome) (F : Nat) (m : Mark)
+    (hn : e.chainType = .normal) (hup : e.adminUp = true) (hfs : e.failsafe = "")
+    (hct : pkt.ctState ≠ "RELATED" ∧ pkt.ctState ≠ "ESTABLISHED" ∧ pkt.ctState ≠ "INVALID")
+    (henc : (e.dropVXLAN = true → pkt.proto ≠ 17) ∧ (e.dropIPIP = true → pkt.proto ≠ 4))
+    (hmD : m &&& cfg.markDrop = 0)
+    (hep : lookupChain chains name = some (endpointChain cfg e name tiers profiles).rules)
+    (hgrp : ∀ t ∈ tiers, ∀ g ∈ t.groups, g.inlined = false →
+      lookupChain chains g.chain = some (policyGroupChain cfg g).rules)
+    (hpol : ∀ t ∈ tiers, ∀ g ∈ t.groups, ∀ p ∈ g.pols, p.staged = false →
+      PolicyChainOK cfg env pkt chains (polRules p.chain) p.chain)
+    (hprof : ∀ p ∈ profiles, ProfileChainOK cfg env pkt chains (polRules p) p)
+    (o1 : ∀ t ∈ tiers, ∀ g ∈ t.groups, g.inlined = true → ∀ p ∈ g.nonStaged,
+      out p.chain = policyOutcome env pkt.v6 pkt (polRules p.chain))
+    (o2 : ∀ t ∈ tiers, ∀ g ∈ t.groups, g.inlined = false →
+      out g.chain = firstDecision (g.nonStaged.map fun p => policyOutcome env pkt.v6 pkt (polRules p.chain)))
+    (o3 : ∀ p ∈ profiles, out p = policyOutcome env pkt.v6 pkt (polRules p)) :
+    VShape cfg
+      (endpointVerdict (tiers.map fun t => ((tierTargets t).map (fun th => out th.1), t.defaultPass))
+        (profiles.map out))
+      (evalChain env chains pkt (F + 4) name m) :=
+  endpoint_chain_verdict_core cfg mo vb vd e env pkt chains name tiers profiles polRules out F m hn hup hfs hct henc
+    hmD hep hgrp hpol hprof o1 o2 o3
 
 /-! ### the hypothesis "no pass rule in a profile" is necessary: a finding -/
 
